@@ -26,6 +26,7 @@ def runPathSharedSync : List String := []
 def sharedSyncOnRunPath : Bool := !runPathSharedSync.isEmpty
 def compiledObjectSync : List String := []
 def lockOnCompiledObject : Bool := !compiledObjectSync.isEmpty
+def branchSuccessorsFresh : Bool := true
 def runErrorsFresh : Bool := EinoV.C09.Err.freshOf storedRunErrors
 def alloc : EinoV.C09.Alloc :=
   EinoV.C09.allocOf runAllocsChannelManager channelsBuiltPerRun channelManagerFieldsFresh
